@@ -99,6 +99,17 @@ Theorem C16_trace_iteration_exact m st en asc w :
              w_trace w' = rev (trace_lines l) ++ w_trace w /\
              w_consumed w' = w_consumed w /\ w_limit w' = w_limit w /\ w_cfg w' = w_cfg w.
 Proof. exact (trace_store_iteration_exact m st en asc w). Qed.
+(* stacking: a gas store over a prefix store over a map. The complete loop returns exactly the parent's items carrying the
+   prefix, stripped, in iteration order, and is charged for the values only (key bytes are never charged), the first
+   item once more at creation *)
+Theorem C16_gas_over_prefix_iteration_exact pfx m asc w :
+  pfx <> [] -> wf_bytes pfx -> (forall k v, In (k, v) m -> wf_bytes k) ->
+  let l := prefixed_items pfx m asc in
+  within w (w_consumed w + head_cost (w_cfg w) l + iter_cost (w_cfg w) l) ->
+  s_iter_all (Gas (Prefix pfx (Base m))) [] None asc w =
+  (Ok (stripped pfx l), Gas (Prefix pfx (Base m)),
+   set_consumed w (w_consumed w + head_cost (w_cfg w) l + iter_cost (w_cfg w) l)).
+Proof. exact (gas_prefix_store_iteration_exact pfx m asc w). Qed.
 Example C16_ex_iter_gas :
   let w := {| w_limit := Some 1000; w_consumed := 0; w_trace := []; w_cfg := kv_gas_config |} in
   let '(r, _, w') := s_iter_all (Gas (Base [([1], [7; 7]); ([2], [8])])) [] None true w in
@@ -125,3 +136,4 @@ Print Assumptions C16_prefix_iteration_is_the_prefixed_items.
 Print Assumptions C16_gas_iteration_exact.
 Print Assumptions C16_gas_iteration_out_of_gas_at_the_crossing.
 Print Assumptions C16_trace_iteration_exact.
+Print Assumptions C16_gas_over_prefix_iteration_exact.
